@@ -18,6 +18,7 @@
    collision-freeness is an assumption); a side file holds [HV d] (the hash of content d) or [HBad] (not 16 characters). *)
 From Coq Require Import List Arith Bool.
 Import ListNotations.
+From GU Require Import C16.Facts C16.Gen.
 
 Inductive kind := Mutable | Immutable.
 Definition ver := nat.
@@ -482,8 +483,6 @@ Record opcase := mkOp {
 Record case := mkCase {
   k_kind : kind;
   k_more : list nat;               (* per version: number of backend writes of its package, minus one *)
-  k_defer_first : bool;
-  k_rehash : bool;
   k_ops : list opcase
 }.
 
@@ -502,8 +501,12 @@ Definition res_of (L : client) : ores :=
   match c_pc L with Done Ok => ROk | Crashed => RCrashed | _ => RErr end.
 Definition ores_eqb a b := match a, b with ROk, ROk | RErr, RErr | RCrashed, RCrashed => true | _, _ => false end.
 
+(* the model instance for the CURRENT source: its flags are read from the generated record of facts *)
+Definition params_of_facts (F : facts) (k : kind) (more : ver -> nat) (other : data -> option ver) : params :=
+  mkParams k more (facts_defer_first F) (facts_rehash F) other.
+
 Definition params_of (c : case) : params :=
-  mkParams (k_kind c) (fun v => nth v (k_more c) 0) (k_defer_first c) (k_rehash c) (fun _ => None).
+  params_of_facts gen_facts (k_kind c) (fun v => nth v (k_more c) 0) (fun _ => None).
 
 Fixpoint check_ops (P : params) (n : nat) (R : remote) (ops : list opcase) : bool :=
   match ops with
@@ -520,4 +523,7 @@ Fixpoint check_ops (P : params) (n : nat) (R : remote) (ops : list opcase) : boo
       && check_ops P (S n) R' r
   end.
 
-Definition check_case (c : case) : bool := check_ops (params_of c) 0 remote0 (k_ops c).
+(* the correspondence is evaluated on the generated instance; if one of the facts built into the micro-step order does not
+   hold of the source, the model does not describe it and every case counts as a mismatch *)
+Definition check_case (c : case) : bool :=
+  facts_model_applies gen_facts && check_ops (params_of c) 0 remote0 (k_ops c).
